@@ -190,6 +190,8 @@ theorem arm_spec {g : Graph} (hwf : WF g) (hn : NoNaN g) (hkd : KeysDistinct g) 
       · rename_i h
         exact ArmOK.ret (by rw [hspec]; exact all2_of_length_ne (by simpa using h))
       · rename_i h
+        have hno : Cfg.fixed.listInnerKindReject = false := rfl
+        simp only [hno, Bool.false_and, Bool.false_eq_true, if_false]
         exact ArmOK.expand xs ys vis' (by simpa using h) hlt (by omega) hspec hv
   case pair.pair a b a' b' =>
     split
